@@ -340,3 +340,8 @@ register(Prop('C18', 'seqinfo reports the library parse', None, None, special=sp
 register(Prop('C17', 'seqls lists every selected file exactly once', None, None, special=special.c17_special,
               partial='the Go scheduler, channels and fastwalk worker pool are not modelled: the pipeline is proved as a transition system, the binary is observed',
               rule='generated trees (depth <= 4, hidden dirs/files, empty dirs, directory links; aliased/cyclic links for termination only) x flag subsets x mixed arguments x GOMAXPROCS 1/2/16 x workers 1/2/50, each run twice'))
+
+register(Prop('C19', 'the C++ port computes the same results', None, None, special=special.c19_special, level='translation_validation',
+              partial='no for-all statement about the C++ code: the port is compared, on generated inputs of the shared domain, with the Go library whose model carries the theorems',
+              rule='grammar-driven ranges (+ token sweep), frame lists, pad widths/tokens, sequence tuples of the unambiguous domain, directories of uniformly padded sequences x option subsets; Go vs C++ on projected observables'))
+PROPS['C19'].technique = 'translation validation: differential run of the C++ port against the Go library (whose Coq model carries the theorems)'
